@@ -9,7 +9,7 @@ copies (gmsol-utils and the SDK twin):
  * codec:exact-fill   : because the reader requires a terminator, every `Ok` of the writer must lie under the strict fact
                    `name.len() < MAX_LEN` (affine fact over the const generic);
  * codec:interior-nul : every `Ok` of the writer lies under the false edge of a NUL-membership test on the name's own bytes
-                   (`bytes.contains(&<const>)`), otherwise the name would read back truncated;
+                   (`bytes.contains(&0u8)`, needle value read from the promoted constant), otherwise the name would read back truncated;
  * codec:buffer  : the writer returns the zero-initialised `[0; MAX_LEN]` into whose prefix `[..len]` exactly the name's bytes
                    were copied (so the terminator is in place);
  * no-panic      : slice / copy_from_slice sites of both functions are in range (writer: `len < MAX_LEN`, equal lengths;
@@ -114,8 +114,8 @@ def _writer(ctx, prog, tag, mod, mode):
         for c, t in nul:
             nd = c.a[1][1]
             cd = nd.a[1] if nd.k == "const" and len(nd.a) > 1 and isinstance(nd.a[1], dict) else {}
-            val = cd.get("deref_int", cd.get("int"))          # exported by newer fact extractors; absent => value not visible
-            if t is False and cd.get("ty") == "&u8" and (val == "0" or (val is None and cd.get("promoted"))):
+            val = cd.get("deref_int", cd.get("int"))          # pointee of the promoted `&0u8`
+            if t is False and cd.get("ty") == "&u8" and val == "0":
                 needle_ok.append(c)
         ctx.ob("codec:%s:fixed_str_to_bytes:interior-nul" % tag, bool(needle_ok),
                "%s writer: Ok lies under the false edge of `bytes.contains(&<u8 const>)` on the name's bytes: %s" % (
@@ -239,7 +239,7 @@ def _role_compare(ctx, prog):
             ctx.ob("role-compare:%s" % f.short, ok and len(cmpd) >= 1,
                    "%s: metadata.name() is `?`-propagated (%s) and compared with the requested role name (%d comparison)" % (f.short, ok, len(cmpd)),
                    where=cs.where())
-    ctx.floor("role-compare", n, 1)
+    ctx.floor("role-compare", n, 8)
 
 
 def run(ctx):
@@ -251,9 +251,9 @@ def run(ctx):
         "with the name copied to its prefix — for gmsol-utils and the SDK copy. Users: every writer call is `?`-propagated, every name "
         "field is written and read with the same length parameter, the role table compares `name()?` with the requested role.")
     ctx.not_decided = (
-        "UTF-8 validity (guaranteed by `&str`). The VALUE of the membership needle (`&0`) is a promoted constant whose value the fact "
-        "extractor does not export: the rule checks that the test exists, is on the name's own bytes, has a `&u8` constant needle and "
-        "guards every Ok — not that the constant is 0. Anchor account (de)serialisation of the byte arrays is trusted.")
+        "UTF-8 validity (guaranteed by `&str`). Anchor account (de)serialisation of the byte arrays and the std semantics of "
+        "slice::contains / Iterator::position / copy_from_slice are trusted. That no OTHER code path writes the name fields with raw "
+        "bytes is only checked for the functions that call the writer (the fields are private to their types).")
     ctx.rule("reader-mode", "reader requires a NUL terminator (None => Err) and returns the bytes before the first NUL")
     ctx.rule("codec", "writer's Ok implies len < MAX_LEN (strict, because the reader needs a terminator), no interior NUL test skipped, zero-filled buffer with the name as prefix")
     ctx.rule("no-panic", "slice/copy sites of reader and writer are in range")
